@@ -8,6 +8,7 @@ import (
 	"regexp"
 	"strconv"
 	"strings"
+	"time"
 
 	"github.com/blinklabs-io/gouroboros/muxer"
 	"github.com/blinklabs-io/gouroboros/protocol"
@@ -360,58 +361,75 @@ func RunScenario(sc Scenario, maxRbuf uint64) result {
 			}
 		}
 	case "backpressure":
-		// a slow application: the handler blocks, the peer floods permitted messages
+		// a slow application: the handler blocks while the peer sends permitted
+		// messages as fast as it can
 		st, e := curEntry()
-		if !peerAgency(sc.Server, e.Agency) && len(e.Transitions) > 0 {
-			// get to a peer-agency state first
-			t := e.Transitions[0]
-			send(t.MsgType, 8)
-			s.Settle()
-			st, e = curEntry()
-		}
 		s.HandlerGate = make(chan struct{})
-		limit := e.PendingMessageByteLimit
-		total := 0
 		var buf []byte
-		stSim := st
-		count := 0
-		for peerAgency(sc.Server, s.stateMap[stSim].Agency) && count < 300 {
-			pe := s.stateMap[stSim]
-			var pt *protocol.StateTransition
-			for i := range pe.Transitions { // prefer a transition that keeps the peer talking
-				if peerAgency(sc.Server, s.stateMap[pe.Transitions[i].NewState].Agency) {
-					pt = &pe.Transitions[i]
+		count, total, limit := 0, 0, 0
+		if ourAgency(sc.Server, e.Agency) {
+			// we pipeline K requests; the peer answers each with one large message
+			var req, rep *protocol.StateTransition
+			for i := range e.Transitions {
+				q := e.Transitions[i].NewState
+				for j := range s.stateMap[q].Transitions {
+					if s.stateMap[q].Transitions[j].NewState == st && peerAgency(sc.Server, s.stateMap[q].Agency) {
+						req, rep = &e.Transitions[i], &s.stateMap[q].Transitions[j]
+					}
 				}
 			}
-			if pt == nil {
-				if len(pe.Transitions) == 0 {
-					break
+			if req != nil {
+				limit = s.stateMap[req.NewState].PendingMessageByteLimit
+				k := 8 + r.Intn(8)
+				for i := 0; i < k; i++ {
+					raw := rawFor(p, req.MsgType, 8, r)
+					m, _ := s.NewOutbound(raw, req.MsgType)
+					_ = s.P.SendMessage(m)
+					sz := 30000 + r.Intn(60000)
+					if limit > 0 {
+						sz = limit/6 + r.Intn(limit/5)
+					}
+					praw := rawFor(p, rep.MsgType, sz, r)
+					buf = append(buf, praw...)
+					total += len(praw)
+					count++
 				}
-				pt = &pe.Transitions[r.Intn(len(pe.Transitions))]
 			}
-			sz := 2000 + r.Intn(60000)
-			if limit > 0 && sz > limit {
-				sz = limit
-			}
-			praw := rawFor(p, pt.MsgType, sz, r)
-			buf = append(buf, praw...)
-			total += len(praw)
-			count++
-			stSim = pt.NewState
-			if limit > 0 && total > 2*limit+100000 {
-				break
-			}
-			if limit == 0 && total > 600000 {
-				break
+		} else {
+			stSim := st
+			for peerAgency(sc.Server, s.stateMap[stSim].Agency) && count < 40 {
+				pe := s.stateMap[stSim]
+				var pt *protocol.StateTransition
+				for i := range pe.Transitions { // prefer a transition that keeps the peer talking
+					if peerAgency(sc.Server, s.stateMap[pe.Transitions[i].NewState].Agency) {
+						pt = &pe.Transitions[i]
+					}
+				}
+				if pt == nil {
+					if len(pe.Transitions) == 0 {
+						break
+					}
+					pt = &pe.Transitions[r.Intn(len(pe.Transitions))]
+				}
+				limit = pe.PendingMessageByteLimit
+				sz := 2000 + r.Intn(60000)
+				if limit > 0 && sz > limit {
+					sz = limit
+				}
+				praw := rawFor(p, pt.MsgType, sz, r)
+				buf = append(buf, praw...)
+				total += len(praw)
+				count++
+				stSim = pt.NewState
 			}
 		}
-		note("slow handler; peer floods %d messages, %d bytes, limit %d", count, total, limit)
+		note("slow handler; peer sends %d messages, %d bytes, limit %d", count, total, limit)
 		s.PeerWriteOrdered(fragment(buf, vh.NewRng(1)))
 		s.Settle()
 		s.Settle()
 		for i := 0; i < count+2; i++ {
 			s.ReleaseHandler(1)
-			if i%7 == 0 {
+			if i%3 == 0 {
 				s.Settle()
 			}
 		}
@@ -480,7 +498,11 @@ func RunScenario(sc Scenario, maxRbuf uint64) result {
 		})
 	}
 	s.Settle()
+	tClose := time.Now()
 	evs, wire, _ := s.Close()
+	if os.Getenv("VERIF_TIMING") != "" {
+		fmt.Fprintf(os.Stderr, "   close took %v\n", time.Since(tClose))
+	}
 	res.tr = Translate(s, evs, maxRbuf)
 	for _, e := range evs {
 		if e.Kind == protocol.VerifEvEnq {
@@ -690,7 +712,11 @@ func RunAll(c *vh.Ctx, prop string) error {
 	}
 	for _, sc := range scs {
 		c.Begin(map[string]any{"scenario": sc})
+		t0 := time.Now()
 		res := RunScenario(sc, maxRbuf)
+		if os.Getenv("VERIF_TIMING") != "" {
+			fmt.Fprintf(os.Stderr, "%-14s %-18s server=%v labels=%d %v\n", sc.Kind, sc.Proto, sc.Server, len(res.tr.Labels), time.Since(t0))
+		}
 		rep := map[string]any{"scenario": sc, "script": res.script, "labels": len(res.tr.Labels), "notes": res.tr.Notes}
 		nontrivial := len(res.tr.States) >= 1 && len(res.tr.Labels) >= 8
 		c.Res.Count(strings.Join(res.tr.Labels, ";"), nontrivial, sc.Kind+"/"+sc.Proto)
@@ -721,7 +747,7 @@ func scenarios(c *vh.Ctx, prop string) []Scenario {
 	}
 	switch prop {
 	case "C11":
-		for rep := 0; rep < c.Pick(2, 12); rep++ {
+		for rep := 0; rep < c.Pick(4, 16); rep++ {
 			for i, p := range ps {
 				if !p.Run {
 					continue
@@ -736,7 +762,7 @@ func scenarios(c *vh.Ctx, prop string) []Scenario {
 		add("errfull", idx["chainsync_ntn"], false, 6)
 		add("errfull", idx["blockfetch"], true, 6)
 	case "C12":
-		for rep := 0; rep < c.Pick(2, 12); rep++ {
+		for rep := 0; rep < c.Pick(3, 14); rep++ {
 			for i, p := range ps {
 				if !p.Run {
 					continue
@@ -769,8 +795,8 @@ func scenarios(c *vh.Ctx, prop string) []Scenario {
 			sm := []int{idx["chainsync_ntn"], idx["blockfetch"]}[r.Intn(2)]
 			add("adversarial", sm, r.Bool(), 4+r.Intn(8))
 		}
-		add("bigbuf", idx["chainsync_ntc"], false, 1)
-		if c.Thorough() {
+		if c.Thorough() { // 16 MiB through the real decoder takes ~20 s per run
+			add("bigbuf", idx["chainsync_ntc"], false, 1)
 			add("bigbuf", idx["blockfetch"], true, 1)
 		}
 	}
@@ -827,6 +853,8 @@ func Post(c *vh.Ctx) error {
 				what = "messages on the wire are not a prefix of the model's wire log"
 			case code == 5:
 				what = "error flag differs from the model's"
+			case code == 6:
+				what = "the model is about to report an error (a loop in its failing phase) but the implementation never called SendError"
 			default:
 				what = fmt.Sprintf("diagnosis code %d", code)
 			}
